@@ -4,5 +4,5 @@ LEVEL = "other"
 
 def check(rep, tier):
     from contracts import containers
-    containers.run_ground(rep, tier)
-    containers.run_exact(rep, tier)
+    rep.run(containers.run_ground, rep, tier)
+    rep.run(containers.run_exact, rep, tier)
